@@ -525,6 +525,10 @@ func HarnessC05ReferenceGRPCResponse() {
 //
 //verif:harness property=C05 stubs=json,wire shard=proto:3
 func HarnessC05ClientWire() {
+	c05ClientWire()
+}
+
+func c05ClientWire() {
 	proto := nondetChoice("proto", 3)
 	streaming := nondetBool("streaming")
 	send := nondetBool("sendCompression")
@@ -602,6 +606,7 @@ func HarnessC05ClientWire() {
 		check(named == "" || named == "identity" || named == "gzip", "the unary encoding header names a registered algorithm")
 		got, ok := decode(named, named != "" && named != "identity", tr.reqBody)
 		check(ok, "a unary request body marked as compressed really is compressed")
+		check((named != "" && named != "identity") == (send && len(msg) >= minBytes), "a unary request is compressed exactly when compression was chosen and the message reaches compress-min-bytes")
 		check(!ok || bytesEq(got, msg), "a reference server recovers the unary request message")
 		return
 	}
@@ -614,6 +619,7 @@ func HarnessC05ClientWire() {
 	check(len(frames) == 1, "one message is one frame")
 	for _, f := range frames {
 		check(f.flags&^1 == 0, "request frames carry only the compressed flag")
+		check((f.flags&1 != 0) == (send && len(msg) >= minBytes), "an enveloped request message is compressed exactly when compression was chosen and it reaches compress-min-bytes")
 		got, dok := decode(named, f.flags&1 != 0, f.payload)
 		check(dok, "a message is flagged compressed only if the encoding header names the algorithm and the bytes are compressed")
 		check(!dok || bytesEq(got, msg), "a reference server recovers the enveloped request message")
